@@ -4,15 +4,15 @@ import CpProofs.C19Sound
 /-!
   C19 — the two ends of the wire that the tool theorems did not cover.
 
-  **Outgoing: "401 with a well-formed challenge".**  `www_authenticate` / `basic_auth` paste the realm, the nonce
-  and the charset name between double quotes without escaping.  For values free of `"` and `\` the result is literally
-  `<Scheme> ` followed by a `name="value"` list — the same grammar the Authorization theorems use — so parsing it
-  back (with the transcribed `parse_http_list` / `parse_keqv_list`, i.e. what a Python client does) gives exactly
-  realm, nonce, algorithm, qop, [stale], [charset].  With the concrete MD5 the nonce condition is a theorem
-  (`md5Hex` yields hexadecimal digits, `'%s' % int` yields digits and `-`), leaving the conditions on the two
-  configuration strings.  The full statement (every realm) is **false** for the code as it is: a realm containing
-  `"` yields a challenge that parses to a different realm (`digestChallenge_wellformed_full_false`; `basic_auth`
-  refuses such a realm with `ValueError`, `digest_auth` does not).
+  **Outgoing: "401 with a well-formed challenge".**  `www_authenticate` / `basic_auth` write the realm and the charset
+  name as quoted-strings (`\` and `"` as quoted-pairs; fix for finding F26), so the result is literally `<Scheme> `
+  followed by a `name="value"` list — the same grammar the Authorization theorems use — for **every** realm and
+  charset name, and parsing it back (with the transcribed `parse_http_list` / `parse_keqv_list`, i.e. what a Python
+  client does) gives exactly realm, nonce, algorithm, qop, [stale], [charset].  The only condition left is on the
+  nonce's hash part, discharged for the concrete MD5 (`md5Hex` yields hexadecimal digits, `'%s' % int` yields digits
+  and `-`).  The code before the fix pasted the realm as it is (`digestChallengeUnescaped`, `basicChallengeUnescaped`):
+  for those the statement is false (`…Unescaped_wellformed_false`), and they coincide with the repaired challenges on
+  every realm / charset name free of `"` and `\` (`…_unchanged_for_plain_realms`).
 
   **Incoming: `Request.process_headers`.**  The tools read `request.headers['Authorization']`, which is the raw value
   after `strip()` and — iff `=?` occurs in it — RFC 2047 decoding.  A standard client header contains no `=?`
@@ -110,26 +110,25 @@ theorem digestChallengeFlds_good (P : Prims) (cfg : DigestCfg) (now : Int) (stal
     · simp only [List.mem_cons, List.not_mem_nil, or_false] at hf; subst hf; exact g6
     · simp at hf
 
-/-- for quote-free realm, nonce and charset name, `www_authenticate` writes exactly `Digest ` + the standard
-    serialisation of its parameters -/
+/-- whatever the realm and the charset name, `www_authenticate` writes exactly `Digest ` + the standard serialisation
+    of its parameters (the nonce being free of `"` and `\`, which it is not escaped for) -/
 theorem digestChallenge_eq_serialise (P : Prims) (cfg : DigestCfg) (now : Int) (stale : Bool)
-    (hr : NoQ cfg.realm) (hn : NoQ (synthesizeNonce P cfg.realm cfg.key (showInt now)))
-    (hc : NoQ (pyUpper cfg.acceptCharset)) :
+    (hn : NoQ (synthesizeNonce P cfg.realm cfg.key (showInt now))) :
     digestChallenge P cfg now stale = cs! "Digest " ++ serialise (digestChallengeFlds P cfg now stale) := by
   have ha : escQ challengeAlgorithm = challengeAlgorithm := by decide
   have hq : escQ challengeQop = challengeQop := by decide
   have ht : escQ (cs! "true") = cs! "true" := by decide
   unfold digestChallenge digestChallengeFlds charsetDecl
   cases stale <;> by_cases hcs : pyUpper cfg.acceptCharset ≠ fallbackCharset <;>
-    simp [hcs, serialise, Fld.text, item, escQ_id _ hr, escQ_id _ hn, escQ_id _ hc, ha, hq, ht]
+    simp [hcs, serialise, Fld.text, item, escQ_id _ hn, ha, hq, ht]
 
-/-- **Well-formed Digest challenge.**  For a realm and charset name free of `"` and `\` and a hash whose values
-    are, the `WWW-Authenticate` value is `Digest ` followed by a parameter list that parses back (first-space split,
-    `parse_http_list`, `parse_keqv_list`) to exactly: the configured realm, the nonce `now:H(now:realm:key)`, the
-    algorithm and qop of `www_authenticate`'s defaults, `stale="true"` iff asked for, and the upper-cased charset
-    unless it is the fallback. -/
+/-- **Well-formed Digest challenge, for every realm and every charset name.**  For a hash whose values are free of
+    `"` and `\`, the `WWW-Authenticate` value is `Digest ` followed by a parameter list that parses back (first-space
+    split, `parse_http_list`, `parse_keqv_list`) to exactly: the configured realm, the nonce `now:H(now:realm:key)`
+    computed from the **unescaped** realm, the algorithm and qop of `www_authenticate`'s defaults, `stale="true"` iff
+    asked for, and the upper-cased charset unless it is the fallback. -/
 theorem digestChallenge_wellformed (P : Prims) (cfg : DigestCfg) (now : Int) (stale : Bool)
-    (hr : NoQ cfg.realm) (hH : ∀ x, NoQ (P.H x)) (hc : NoQ (pyUpper cfg.acceptCharset)) :
+    (hH : ∀ x, NoQ (P.H x)) :
     ∃ params, split1 ' ' (digestChallenge P cfg now stale) = some (cs! "Digest", params) ∧
       parseKeqvList (parseHttpList params) = .ok
         ([(cs! "realm", cfg.realm), (cs! "nonce", synthesizeNonce P cfg.realm cfg.key (showInt now)),
@@ -144,7 +143,7 @@ theorem digestChallenge_wellformed (P : Prims) (cfg : DigestCfg) (now : Int) (st
       · decide
       · exact hH _ c h)
   refine ⟨serialise (digestChallengeFlds P cfg now stale), ?_, ?_⟩
-  · rw [digestChallenge_eq_serialise P cfg now stale hr hn hc]
+  · rw [digestChallenge_eq_serialise P cfg now stale hn]
     exact split1_of_append (cs! "Digest") _ (by decide)
   · rw [parse_serialise _ (digestChallengeFlds_good P cfg now stale)]
     congr 1
@@ -155,9 +154,8 @@ theorem digestChallenge_wellformed (P : Prims) (cfg : DigestCfg) (now : Int) (st
     · simp only [if_pos hcs, if_true, List.map_append, List.map_cons, List.map_nil, Fld.pair]
     · simp only [if_neg hcs, if_true, List.map_append, List.map_cons, List.map_nil, Fld.pair]
 
-/-- … with the concrete MD5 nothing is assumed about the nonce any more -/
-theorem digestChallenge_wellformed_md5 (nfc : Str → Str) (cfg : DigestCfg) (now : Int) (stale : Bool)
-    (hr : NoQ cfg.realm) (hc : NoQ (pyUpper cfg.acceptCharset)) :
+/-- … with the concrete MD5 there is no hypothesis at all: every configuration, every second, stale or not -/
+theorem digestChallenge_wellformed_md5 (nfc : Str → Str) (cfg : DigestCfg) (now : Int) (stale : Bool) :
     ∃ params, split1 ' ' (digestChallenge (md5P nfc) cfg now stale) = some (cs! "Digest", params) ∧
       parseKeqvList (parseHttpList params) = .ok
         ([(cs! "realm", cfg.realm), (cs! "nonce", synthesizeNonce (md5P nfc) cfg.realm cfg.key (showInt now)),
@@ -165,21 +163,38 @@ theorem digestChallenge_wellformed_md5 (nfc : Str → Str) (cfg : DigestCfg) (no
          ++ (if stale then [(cs! "stale", cs! "true")] else [])
          ++ (if pyUpper cfg.acceptCharset ≠ fallbackCharset then [(cs! "charset", pyUpper cfg.acceptCharset)]
              else [])) :=
-  digestChallenge_wellformed (md5P nfc) cfg now stale hr (fun x => md5Hex_noQ x) hc
+  digestChallenge_wellformed (md5P nfc) cfg now stale (fun x => md5Hex_noQ x)
 
-/-- "every challenge is well-formed" over *all* realms … -/
-def digestChallenge_wellformed_full : Prop :=
+/-! #### the code before the fix for F26 -/
+
+/-- `www_authenticate` as it was: realm and charset name pasted between the quotes as they are -/
+def digestChallengeUnescaped (P : Prims) (cfg : DigestCfg) (now : Int) (stale : Bool) : Str :=
+  cs! "Digest realm=\"" ++ cfg.realm ++ cs! "\", nonce=\"" ++ synthesizeNonce P cfg.realm cfg.key (showInt now)
+    ++ cs! "\", algorithm=\"" ++ challengeAlgorithm ++ cs! "\", qop=\"" ++ challengeQop ++ ['"']
+    ++ (if stale then cs! ", stale=\"true\"" else [])
+    ++ (if pyUpper cfg.acceptCharset ≠ fallbackCharset then cs! ", charset=\"" ++ pyUpper cfg.acceptCharset ++ ['"']
+        else [])
+
+/-- the repair changes nothing for a realm and charset name free of `"` and `\`: byte for byte the same header -/
+theorem digestChallenge_unchanged_for_plain_realms (P : Prims) (cfg : DigestCfg) (now : Int) (stale : Bool)
+    (hr : NoQ cfg.realm) (hc : NoQ (pyUpper cfg.acceptCharset)) :
+    digestChallenge P cfg now stale = digestChallengeUnescaped P cfg now stale := by
+  unfold digestChallenge digestChallengeUnescaped charsetDecl
+  simp only [escQ_id _ hr, escQ_id _ hc]
+
+/-- "every challenge is well-formed" for the unescaped paste … -/
+def digestChallengeUnescaped_wellformed : Prop :=
   ∀ (P : Prims) (cfg : DigestCfg) (now : Int) (stale : Bool), (∀ x, NoQ (P.H x)) →
-    ∃ params rest, split1 ' ' (digestChallenge P cfg now stale) = some (cs! "Digest", params) ∧
+    ∃ params rest, split1 ' ' (digestChallengeUnescaped P cfg now stale) = some (cs! "Digest", params) ∧
       parseKeqvList (parseHttpList params) = .ok ((cs! "realm", cfg.realm) :: rest)
 
-/-- … is false for the code as it is: `www_authenticate` does not escape (or refuse) a `"` in the realm, so the realm
-    `a", x="` comes back as `a` followed by a parameter `x` the server never meant to send -/
-theorem digestChallenge_wellformed_full_false : ¬ digestChallenge_wellformed_full := by
+/-- … was false (finding F26): the realm `a", x="` came back as `a` followed by a parameter `x` the server never
+    meant to send -/
+theorem digestChallengeUnescaped_wellformed_false : ¬ digestChallengeUnescaped_wellformed := by
   intro h
   obtain ⟨params, rest, h1, h2⟩ := h ⟨fun _ => cs! "0", fun _ => none, fun _ => none, id⟩
     ⟨cs! "a\", x=\"", cs! "K", .plain [], cs! "utf-8"⟩ 5 false (fun _ => NoQ_of_all (cs! "0") (by decide))
-  have e : split1 ' ' (digestChallenge ⟨fun _ => cs! "0", fun _ => none, fun _ => none, id⟩
+  have e : split1 ' ' (digestChallengeUnescaped ⟨fun _ => cs! "0", fun _ => none, fun _ => none, id⟩
       ⟨cs! "a\", x=\"", cs! "K", .plain [], cs! "utf-8"⟩ 5 false) =
       some (cs! "Digest", cs! "realm=\"a\", x=\"\", nonce=\"5:0\", algorithm=\"MD5\", qop=\"auth\", charset=\"UTF-8\"") := by
     decide +kernel
@@ -193,6 +208,13 @@ theorem digestChallenge_wellformed_full_false : ¬ digestChallenge_wellformed_fu
   rw [e2] at h2
   simp only [Except.ok.injEq, List.cons.injEq, Prod.mk.injEq] at h2
   exact absurd h2.1.2 (by decide)
+
+/-- the same realm through the repaired `www_authenticate` (non-vacuity of the full-strength theorem on the very
+    witness that refuted the old code) -/
+example : parseKeqvList (parseHttpList ((digestChallenge ⟨fun _ => cs! "0", fun _ => none, fun _ => none, id⟩
+    ⟨cs! "a\", x=\"", cs! "K", .plain [], cs! "utf-8"⟩ 5 false).drop 7)) =
+    .ok [(cs! "realm", cs! "a\", x=\""), (cs! "nonce", cs! "5:0"), (cs! "algorithm", cs! "MD5"),
+      (cs! "qop", cs! "auth"), (cs! "charset", cs! "UTF-8")] := by decide +kernel
 
 /-- `_respond_401` calls `www_authenticate` with its default algorithm and qop, which are among the valid ones: the
     two `raise ValueError` lines of `www_authenticate` cannot be reached through the tool, and what it returns is
@@ -239,9 +261,10 @@ def basicChallengeFlds (cfg : BasicCfg) : List Fld :=
   ++ (if pyUpper cfg.acceptCharset ≠ fallbackCharset then [.quoted (cs! "charset") (pyUpper cfg.acceptCharset)]
       else [])
 
-/-- **Well-formed Basic challenge.**  `basic_auth` refuses a realm containing `"`; for a realm that is also free of
-    `\` the challenge parses back to exactly the configured realm and the charset announcement. -/
-theorem basicChallenge_wellformed (cfg : BasicCfg) (hr : NoQ cfg.realm) (hc : NoQ (pyUpper cfg.acceptCharset)) :
+/-- **Well-formed Basic challenge, for every realm and charset name**: the challenge parses back to exactly the
+    configured realm and the charset announcement.  (`basic_auth` additionally refuses a realm containing `"` before it
+    gets here; the challenge text itself is well-formed for such a realm too.) -/
+theorem basicChallenge_wellformed (cfg : BasicCfg) :
     ∃ params, split1 ' ' (basicChallenge cfg) = some (cs! "Basic", params) ∧
       parseKeqvList (parseHttpList params) = .ok
         ((cs! "realm", cfg.realm) ::
@@ -260,25 +283,38 @@ theorem basicChallenge_wellformed (cfg : BasicCfg) (hr : NoQ cfg.realm) (hc : No
   have heq : basicChallenge cfg = cs! "Basic " ++ serialise (basicChallengeFlds cfg) := by
     unfold basicChallenge basicChallengeFlds charsetDecl
     by_cases hcs : pyUpper cfg.acceptCharset ≠ fallbackCharset <;>
-      simp [hcs, serialise, Fld.text, item, escQ_id _ hr, escQ_id _ hc]
+      simp [hcs, serialise, Fld.text, item]
   refine ⟨serialise (basicChallengeFlds cfg), ?_, ?_⟩
   · rw [heq]; exact split1_of_append (cs! "Basic") _ (by decide)
   · rw [parse_serialise _ hgood]
     unfold basicChallengeFlds
     by_cases hcs : pyUpper cfg.acceptCharset ≠ fallbackCharset <;> simp [hcs, Fld.pair]
 
-/-- "every Basic challenge is well-formed" over all realms `basic_auth` accepts (no double quote) … -/
-def basicChallenge_wellformed_full : Prop :=
+/-- `basic_auth`'s challenge as it was before the fix for F26 -/
+def basicChallengeUnescaped (cfg : BasicCfg) : Str :=
+  cs! "Basic realm=\"" ++ cfg.realm ++ ['"']
+    ++ (if pyUpper cfg.acceptCharset ≠ fallbackCharset then cs! ", charset=\"" ++ pyUpper cfg.acceptCharset ++ ['"']
+        else [])
+
+theorem basicChallenge_unchanged_for_plain_realms (cfg : BasicCfg)
+    (hr : NoQ cfg.realm) (hc : NoQ (pyUpper cfg.acceptCharset)) :
+    basicChallenge cfg = basicChallengeUnescaped cfg := by
+  unfold basicChallenge basicChallengeUnescaped charsetDecl
+  simp only [escQ_id _ hr, escQ_id _ hc]
+
+/-- "every Basic challenge is well-formed" over all realms `basic_auth` accepts (no double quote), for the unescaped
+    paste … -/
+def basicChallengeUnescaped_wellformed : Prop :=
   ∀ (cfg : BasicCfg), cfg.realm.contains '"' = false →
-    ∃ params rest, split1 ' ' (basicChallenge cfg) = some (cs! "Basic", params) ∧
+    ∃ params rest, split1 ' ' (basicChallengeUnescaped cfg) = some (cs! "Basic", params) ∧
       parseKeqvList (parseHttpList params) = .ok ((cs! "realm", cfg.realm) :: rest)
 
-/-- … is false as well: a backslash in the realm is pasted unescaped, so a reader resolving quoted-pair gets another
-    realm (`a\b` comes back as `ab`) — finding F26 -/
-theorem basicChallenge_wellformed_full_false : ¬ basicChallenge_wellformed_full := by
+/-- … was false as well (finding F26): a backslash in the realm was pasted unescaped, so a reader resolving
+    quoted-pair got another realm (`a\b` came back as `ab`) -/
+theorem basicChallengeUnescaped_wellformed_false : ¬ basicChallengeUnescaped_wellformed := by
   intro h
   obtain ⟨params, rest, h1, h2⟩ := h ⟨cs! "a\\b", [], cs! "utf-8"⟩ (by decide)
-  have e : split1 ' ' (basicChallenge ⟨cs! "a\\b", [], cs! "utf-8"⟩) =
+  have e : split1 ' ' (basicChallengeUnescaped ⟨cs! "a\\b", [], cs! "utf-8"⟩) =
       some (cs! "Basic", cs! "realm=\"a\\b\", charset=\"UTF-8\"") := by decide +kernel
   rw [e] at h1
   simp only [Option.some.injEq, Prod.mk.injEq, true_and] at h1
